@@ -73,10 +73,36 @@ pub struct MarkSpec {
     pub mark_shape: u8,
 }
 
+/// Class rules over OVERLAPPING glyph sets drawn from two small universes,
+/// plus glyph-pair rules over the same glyphs: rule order decides.
+#[derive(Clone, Debug)]
+pub struct OrderSpec {
+    /// universe sizes (first / second glyphs)
+    pub n1: usize,
+    pub n2: usize,
+    pub n_rules: usize,
+    pub max_set1: usize,
+    pub max_set2: usize,
+    /// directed prefix: 0 none, 1..=4 see `gen_order_plan`
+    pub template: u8,
+    pub n_glyph_pairs: usize,
+    pub n_tp: usize,
+    pub dev_mode: u8,
+    pub dev_pct: u64,
+    /// glyph id stride inside the universes
+    pub stride: usize,
+    /// allow a later rule with exactly the same two sets as an earlier one
+    pub exact_dups: bool,
+    /// use the first builder's glyph universe (the builders of the lookup then
+    /// compete for the same first glyphs)
+    pub share_universe: bool,
+}
+
 #[derive(Clone, Debug)]
 pub enum LookupSpec {
     Pair(Vec<PairSpec>),
     Mark(Vec<MarkSpec>),
+    PairOrder(Vec<OrderSpec>),
 }
 
 /// glyph id layout (before the optional mirroring):
@@ -312,6 +338,152 @@ pub fn gen_pair_plan(rng: &mut Rng, env: &Env, spec: &PairSpec, builder_idx: usi
                 },
             ));
         }
+    }
+    plan.derive();
+    plan
+}
+
+fn pick_set(rng: &mut Rng, universe: &[u16], used: &[Vec<u16>], max: usize) -> Vec<u16> {
+    let max = max.clamp(1, universe.len());
+    let subset = |rng: &mut Rng, from: &[u16], max: usize| -> Vec<u16> {
+        let k = 1 + rng.usize(max.min(from.len()));
+        let mut v = from.to_vec();
+        rng.shuffle(&mut v);
+        v.truncate(k);
+        v.sort_unstable();
+        v
+    };
+    let roll = rng.usize(100);
+    if !used.is_empty() && roll < 30 {
+        // identical to an earlier set: compatible with the subtable that has it
+        return rng.pick(used).clone();
+    }
+    if !used.is_empty() && roll < 45 {
+        // a proper part of an earlier set ([C] after [B C])
+        let from = rng.pick(used).clone();
+        if from.len() > 1 {
+            return subset(rng, &from, from.len() - 1);
+        }
+    }
+    if roll < 65 {
+        // glyphs no earlier set has: fits every subtable
+        let fresh: Vec<u16> = universe.iter().copied().filter(|g| !used.iter().any(|u| u.contains(g))).collect();
+        if !fresh.is_empty() {
+            return subset(rng, &fresh, max);
+        }
+    }
+    if !used.is_empty() && roll < 80 {
+        // an earlier set plus / minus a glyph: partial overlap, forces a break
+        let mut v = rng.pick(used).clone();
+        let g = *rng.pick(universe);
+        if let Some(k) = v.iter().position(|x| *x == g) {
+            if v.len() > 1 {
+                v.remove(k);
+            }
+        } else {
+            v.push(g);
+            v.sort_unstable();
+        }
+        return v;
+    }
+    subset(rng, universe, max)
+}
+
+pub fn gen_order_plan(rng: &mut Rng, env: &Env, spec: &OrderSpec, builder_idx: usize) -> PairPlan {
+    let mut plan = PairPlan::default();
+    let candidates: [(u8, u8); 8] = [
+        (0b0100, 0),
+        (0b0100, 0b0100),
+        (0b0101, 0),
+        (0b1111, 0b0001),
+        (0b0001, 0b0100),
+        (0b0110, 0b1000),
+        (0b1000, 0),
+        (0, 0b0100),
+    ];
+    let off = rng.usize(candidates.len());
+    let n_tp = spec.n_tp.max(1);
+    for k in 0..n_tp {
+        let (m1, m2) = candidates[(off + k) % candidates.len()];
+        plan.tmpls.push(gen_tmpl(rng, env, m1, spec.dev_mode, spec.dev_pct));
+        plan.tmpls.push(gen_tmpl(rng, env, m2, spec.dev_mode, spec.dev_pct));
+    }
+    let stride = spec.stride.max(1);
+    let c1_base = CLASS1_BASE + if spec.share_universe { 0 } else { builder_idx * CLASS1_SPAN };
+    let mut u1: Vec<u16> = (0..spec.n1.max(1)).map(|i| env.g((c1_base + i * stride) as u16)).collect();
+    let mut u2: Vec<u16> = (0..spec.n2.max(1)).map(|i| env.g((SECOND_BASE + i * stride) as u16)).collect();
+    u1.sort_unstable();
+    u2.sort_unstable();
+    // every rule gets its own, non-zero number: values identify rules
+    let mut serial = 0i16;
+    let mut next_rule = |rng: &mut Rng| -> Rule {
+        serial += 1;
+        let tp = rng.usize(n_tp);
+        let mag = 150 * serial.min(70) + rng.range(0, 40) as i16;
+        Rule {
+            t1: (2 * tp) as u8,
+            t2: (2 * tp + 1) as u8,
+            val: if rng.bool() { mag } else { -mag },
+        }
+    };
+    // ---- directed prefixes (A, B, .. distinct first glyphs; X, Y, .. seconds)
+    if spec.template != 0 && u1.len() >= 4 && u2.len() >= 3 {
+        let mut a = u1.clone();
+        rng.shuffle(&mut a);
+        let mut x = u2.clone();
+        rng.shuffle(&mut x);
+        let s = |v: &[u16]| {
+            let mut v = v.to_vec();
+            v.sort_unstable();
+            v
+        };
+        let rules: Vec<(Vec<u16>, Vec<u16>)> = match spec.template {
+            // rule 2 breaks on class 1; rule 3 fits the first subtable and shares (C, Y) with rule 2
+            1 => vec![(s(&[a[0], a[1]]), s(&[x[0]])), (s(&[a[1], a[2]]), s(&[x[1]])), (s(&[a[2]]), s(&[x[1]]))],
+            // rule 2 breaks on class 2; rule 3 fits the first subtable and shares (B, Z) with rule 2
+            2 => vec![(s(&[a[0]]), s(&[x[0], x[1]])), (s(&[a[1]]), s(&[x[1], x[2]])), (s(&[a[1]]), s(&[x[2]]))],
+            // two breaks, the fourth rule fits subtables 1 and 2
+            3 => vec![
+                (s(&[a[0], a[1]]), s(&[x[0]])),
+                (s(&[a[1], a[2]]), s(&[x[1]])),
+                (s(&[a[2], a[3]]), s(&[x[2]])),
+                (s(&[a[3]]), s(&[x[2]])),
+            ],
+            // the third rule shares both of its sets with rule 1 / is disjoint from it, rule 2 overlaps in between
+            _ => vec![
+                (s(&[a[0], a[1]]), s(&[x[0], x[1]])),
+                (s(&[a[1], a[2], a[3]]), s(&[x[1], x[2]])),
+                (s(&[a[2], a[3]]), s(&[x[0], x[1]])),
+                (s(&[a[3]]), s(&[x[2]])),
+            ],
+        };
+        for (s1, s2) in rules {
+            let r = next_rule(rng);
+            plan.orules.push((s1, s2, r));
+        }
+    }
+    // ---- random rules
+    while plan.orules.len() < spec.n_rules.max(1) {
+        let used1: Vec<Vec<u16>> = plan.orules.iter().map(|r| r.0.clone()).collect();
+        let used2: Vec<Vec<u16>> = plan.orules.iter().map(|r| r.1.clone()).collect();
+        let s1 = pick_set(rng, &u1, &used1, spec.max_set1);
+        let s2 = pick_set(rng, &u2, &used2, spec.max_set2);
+        if !spec.exact_dups && plan.orules.iter().any(|r| r.0 == s1 && r.1 == s2) {
+            // an exact duplicate: change the rule instead of looping for ever in a tiny universe
+            if plan.orules.len() >= u1.len() * u2.len() {
+                break;
+            }
+            continue;
+        }
+        let r = next_rule(rng);
+        plan.orules.push((s1, s2, r));
+    }
+    // ---- glyph-pair rules over the same glyphs (and one outside first glyph)
+    for k in 0..spec.n_glyph_pairs {
+        let g1 = if k % 5 == 4 { env.g((FIRST_BASE + k) as u16) } else { *rng.pick(&u1) };
+        let g2 = *rng.pick(&u2);
+        let r = next_rule(rng);
+        plan.grules.push((g1, g2, r));
     }
     plan.derive();
     plan
